@@ -60,7 +60,7 @@ GET_BODY = [ANY(x) for x in [
 ]]
 
 KEY = 'r.inner'
-MISS = '!old(self).chain@.contains(%s) && old(self).storage.cache.cached(%s) is None'
+MISS = '!old(self).chain@.contains(%s) && old(self).chain@.len() < 32 && old(self).storage.cache.cached(%s) is None'
 UNDER = 'obj_under(old(self).storage, %s, ParseFlags::ANY, %s)'
 
 GET_ENS = [
@@ -69,6 +69,9 @@ GET_ENS = [
     # a key ANYWHERE in the chain is an error and is not loaded again (no cache lookup, no resolve, no reader)
     ('repeated_key_is_refused_and_not_loaded',
      'old(self).chain@.contains(%s) ==> (out matches Err(PdfError::Other)) && final(self).loads@ == old(self).loads@' % KEY),
+    # C14 (finding deep_parent_chain): at most 32 typed loads are ever in progress inside one another: the 33rd is refused and loads nothing
+    ('nesting_beyond_32_is_refused_and_not_loaded',
+     'old(self).chain@.len() >= 32 ==> (out matches Err(PdfError::Other)) && final(self).loads@ == old(self).loads@'),
     # every load made on behalf of this call runs under the chain extended by this key (depth + 1)
     ('nested_loads_run_under_longer_chain',
      'extends_under(old(self).loads@, final(self).loads@, old(self).chain@.push(%s))' % KEY),
